@@ -201,6 +201,47 @@ def check_props_file(pid, extra_files=()):
 ALLOWED_AXIOMS = ()   # none are needed; any axiom listed by Print Assumptions fails the check
 
 
+def generic_program(data):
+    """The API program recorded in a replay file, if there is one."""
+    det = data.get('detail') if isinstance(data, dict) else None
+    if isinstance(det, dict):
+        for key in ('program', 'history'):
+            if isinstance(det.get(key), list) and det[key] and isinstance(det[key][0], dict) and 'op' in det[key][0]:
+                return det[key]
+    return None
+
+
+def generic_replay(ctx, prog):
+    """Run one recorded program on the implementation and the model; every written file must be accepted by the strict reader
+    and decode to what the program says."""
+    import apistream
+    import judge
+    import specgen
+    A = specgen.api()
+    created = -1
+    for s in prog:                       # private fields the generators add (stripped from replay files) are restored
+        if s['op'] in ('origin', 'add', 'channel', 'frame'):
+            created += 1
+        if s['op'] == 'origin' and '_fh_id' not in s:
+            lfs = [x['fh_id'].get('v') for x in prog if x['op'] == 'lf']
+            li = s.get('lf', 0)
+            s['_fh_id'] = lfs[li] if li < len(lfs) and isinstance(lfs[li], str) else 'H'
+        if s['op'] == 'assign' and '_type' not in s:
+            cr = [x for x in prog if x['op'] in ('origin', 'add', 'channel', 'frame')]
+            if s['obj'] < len(cr):
+                s['_type'] = cr[s['obj']].get('type') or cr[s['obj']]['op']
+    r = apistream.run_one(ctx, prog, 'K-api-replay')
+    ctx.count('K-api-replay', key='recorded-program')
+    for (step, data, vrl, ident) in r['files']:
+        d = apistream.decode(ctx, data, vrl, ident)
+        det = {'program': apistream.strip_private(prog), 'write_step': step}
+        if not d.ok:
+            ctx.violation('file-rejected-by-strict-reader', det)
+            continue
+        judge.check_fidelity(ctx, d, judge.expected_at(prog, r['outs'], step), det)
+        judge.check_identity_refs(ctx, d, det, check_unique=False)
+
+
 def main():
     if len(sys.argv) < 3:
         print('usage: check <ID> quick|thorough | check <ID> --replay <file>')
@@ -242,7 +283,11 @@ def main():
     crashed = None
     try:
         if replay:
-            mod.replay(ctx, json.load(open(replay)))
+            data = json.load(open(replay))
+            prog = generic_program(data)
+            if prog is not None:
+                generic_replay(ctx, prog)      # the recorded API program alone: model correspondence + strict reader
+            mod.replay(ctx, data)              # then the property's own streams (they contain the recorded case when the seed is the same)
         else:
             mod.run(ctx)
     except Exception:
